@@ -1,4 +1,4 @@
-//! Minimal MIDAS file writer (format read from midasio 0.5.3: little-endian, 32-bit banks) and
+//! Minimal MIDAS file writer (format read from midasio 0.5.3: either byte order, 32-bit banks) and
 //! a runner for the real analysis binaries built from /repo.
 use std::io::Write;
 use std::path::{Path, PathBuf};
@@ -18,46 +18,63 @@ pub struct Event {
     pub banks: Vec<Bank>,
 }
 
+fn w16(v: &mut Vec<u8>, x: u16, big: bool) {
+    v.extend(if big { x.to_be_bytes() } else { x.to_le_bytes() });
+}
+fn w32(v: &mut Vec<u8>, x: u32, big: bool) {
+    v.extend(if big { x.to_be_bytes() } else { x.to_le_bytes() });
+}
+
 pub fn event_bytes(e: &Event) -> Vec<u8> {
+    event_bytes_endian(e, false)
+}
+
+/// One event; `big` selects the byte order of every header field (bank payloads are bytes).
+pub fn event_bytes_endian(e: &Event, big: bool) -> Vec<u8> {
     let mut banks = Vec::new();
     for b in &e.banks {
         assert!(b.name.len() == 4 && b.name.bytes().all(|c| c.is_ascii_alphanumeric()));
         banks.extend(b.name.as_bytes());
-        banks.extend(1u32.to_le_bytes()); // data type 1 = u8
-        banks.extend((b.data.len() as u32).to_le_bytes());
+        w32(&mut banks, 1, big); // data type 1 = u8
+        w32(&mut banks, b.data.len() as u32, big);
         banks.extend(&b.data);
         let pad = (8 - b.data.len() % 8) % 8;
         banks.extend(std::iter::repeat(0u8).take(pad));
     }
     let mut v = Vec::new();
-    v.extend(e.id.to_le_bytes());
-    v.extend(0u16.to_le_bytes()); // trigger mask
-    v.extend(e.serial.to_le_bytes());
-    v.extend(e.ts.to_le_bytes());
-    v.extend((banks.len() as u32 + 8).to_le_bytes());
-    v.extend((banks.len() as u32).to_le_bytes());
-    v.extend(17u32.to_le_bytes()); // flags: 32-bit banks
+    w16(&mut v, e.id, big);
+    w16(&mut v, 0, big); // trigger mask
+    w32(&mut v, e.serial, big);
+    w32(&mut v, e.ts, big);
+    w32(&mut v, banks.len() as u32 + 8, big);
+    w32(&mut v, banks.len() as u32, big);
+    w32(&mut v, 17, big); // flags: 32-bit banks
     v.extend(banks);
     v
 }
 
 pub fn file_bytes(run: u32, t0: u32, t1: u32, events: &[Event]) -> Vec<u8> {
+    file_bytes_endian(run, t0, t1, events, false)
+}
+
+/// A whole file; `big` = big-endian file (midasio reads the byte order from the begin-of-run marker).
+pub fn file_bytes_endian(run: u32, t0: u32, t1: u32, events: &[Event], big: bool) -> Vec<u8> {
     let mut v = Vec::new();
-    v.extend(0x8000u16.to_le_bytes());
-    v.extend(0x494Du16.to_le_bytes());
-    v.extend(run.to_le_bytes());
-    v.extend(t0.to_le_bytes());
+    w16(&mut v, 0x8000, big);
+    w16(&mut v, 0x494D, big);
+    w32(&mut v, run, big);
+    w32(&mut v, t0, big);
     let odb = b"{}";
-    v.extend((odb.len() as u32).to_le_bytes());
+    w32(&mut v, odb.len() as u32, big);
     v.extend(odb);
     for e in events {
-        v.extend(event_bytes(e));
+        v.extend(event_bytes_endian(e, big));
     }
-    v.extend(0x8001u16.to_le_bytes());
-    v.extend(0x494Du16.to_le_bytes());
-    v.extend(run.to_le_bytes());
-    v.extend(t1.to_le_bytes());
-    v.extend((odb.len() as u32).to_le_bytes());
+    w16(&mut v, 0x8001, big);
+    w16(&mut v, 0x494D, big);
+    w32(&mut v, run, big);
+    w32(&mut v, t1, big);
+    w32(&mut v, odb.len() as u32, big);
     v.extend(odb);
     v
 }
